@@ -72,6 +72,28 @@ Theorem C19_request_object_not_advertised : forall (r : router) (c : config) (k 
 Proof. exact request_object_not_advertised. Qed.
 Print Assumptions C19_request_object_not_advertised.
 
+(* PKCE parameters carried by the signed request object (wholly or partly; what the object says supersedes the
+   query, OIDC Core 6.1): with request_parameter_supported advertised, the other parameters placed as 6.1 allows
+   and the effective method advertised, the whole code flow yields tokens exactly when the verifier satisfies
+   that method against the effective challenge - for every router, configuration and client kind *)
+Theorem C19_request_object_pkce_honoured : forall (r : router) (c : config) (k : client_kind) (p : ro_placement)
+    (qm om : option string) (qc oc : option vrel) (sent : bool) (m : string) (rel : vrel),
+  doc_reqparam c = true -> ro_legal p = true ->
+  merge qm om = Some m -> string_in m (doc_pkce c) = true -> merge qc oc = Some rel ->
+  ro_pkce_issued r c k p qm om qc oc sent = rel_matches m (if sent then rel else VAbsent) && client_ok c k.
+Proof. exact request_object_pkce_honoured. Qed.
+Print Assumptions C19_request_object_pkce_honoured.
+
+(* no downgrade through the request object: the challenge replayed as verifier, an unrelated or no verifier get nothing *)
+Theorem C19_request_object_pkce_no_downgrade : forall (r : router) (c : config) (k : client_kind) (p : ro_placement)
+    (qm om : option string) (qc oc : option vrel) (sent : bool) (m : string) (rel : vrel),
+  doc_reqparam c = true -> ro_legal p = true ->
+  merge qm om = Some m -> string_in m (doc_pkce c) = true -> merge qc oc = Some rel ->
+  (sent = false \/ rel = VPlain \/ rel = VNone \/ rel = VAbsent) ->
+  ro_pkce_issued r c k p qm om qc oc sent = false.
+Proof. exact request_object_pkce_no_downgrade. Qed.
+Print Assumptions C19_request_object_pkce_no_downgrade.
+
 (* the document's issuer is the issuer put into tokens, whichever router serves which *)
 Theorem C19_issuer_same : forall (r r' : router) (c : config) (q : request),
   doc_issuer r c q = token_issuer r' c q.
